@@ -47,7 +47,10 @@ def must_see(tier):
             'c:inload:reload-after-in-load-sweep': 30,
             'py:inload:reload-after-in-load-sweep': 30,
             'c:inload:load-refused-after-sweep': 20,
-            'py:inload:load-refused-after-sweep': 20}
+            'py:inload:load-refused-after-sweep': 20,
+            'c:sweep-between-iterator-steps': 100,
+            'py:sweep-between-iterator-steps': 100,
+            'c:bare-jar-history': 20, 'py:bare-jar-history': 20}
 
 
 def plan(tier, seed):
@@ -140,7 +143,10 @@ def run_shard(spec, rec):
     for kind in families.KINDS:
         for h in range(spec['histories']):
             rng = rng_for(spec['seed'], ID, spec['label'], kind, h)
-            run_history(fam, kind, impl, spec['mode'], rng, rec, h)
+            mode = spec['mode']
+            if mode == 'between' and h % 3 == 2:
+                mode = 'bare'
+            run_history(fam, kind, impl, mode, rng, rec, h)
 
 
 def ghost_count(conn):
@@ -296,6 +302,59 @@ def _mutreassign(c, k, box, first, commit=None):
 
 
 EXTRA_OPS['mutreassign'] = _mutreassign
+
+
+def _stepped(c, which, at, pause, idxs, *a):
+    """ONE iterator (or lazy sequence) used step by step, with the cache
+    swept between two steps: every next() / seq[i] is an operation of its
+    own, and what the iterator has still to deliver must not depend on the
+    nodes staying loaded."""
+    if which == 'iter':
+        it = iter(c)
+    elif which in ('iterkeys', 'itervalues', 'iteritems'):
+        it = getattr(c, which)(*a)
+    elif which in ('keys', 'values', 'items'):
+        seq = getattr(c, which)(*a)
+        if idxs is not None:
+            out = []
+            for n_, i in enumerate(idxs):
+                try:
+                    out.append(seq[i])
+                except IndexError:
+                    out.append('IndexError')
+                if n_ in at:
+                    pause()
+            return out
+        it = iter(seq)
+    out = []
+    for x in it:
+        out.append(x)
+        if len(out) in at:
+            pause()
+    return out
+
+
+EXTRA_OPS['stepped'] = _stepped
+
+
+def stepped_call(rng, present, universe, is_mapping, is_tree):
+    which = ['iter', 'keys']
+    if is_mapping:
+        which += ['iterkeys', 'itervalues', 'iteritems', 'values', 'items']
+    elif is_tree:
+        which += ['iterkeys']
+    w_ = rng.choice(which)
+    n_ = max(1, len(present))
+    at = tuple(sorted(set(rng.randint(0, n_) for _ in range(rng.randint(1, 3)))))
+    idxs = None
+    if is_tree and w_ in ('keys', 'values', 'items') and rng.random() < .5:
+        idxs = tuple(rng.randint(-n_ - 1, n_)
+                     for _ in range(rng.randint(2, 6)))
+    a = ()
+    if w_ != 'iter' and rng.random() < .4:
+        a = (rng.choice([None] + present[:2] + [rng.choice(universe)]),
+             rng.choice([None] + present[-2:] + [rng.choice(universe)]))
+    return 'stepped', (w_, at, idxs) + a
 
 
 def _walk(seq, idxs):
@@ -477,7 +536,15 @@ def run_history(fam, kind, impl, mode, rng, rec, h):
     if is_tree and h % 5 == 4:
         sizes = None
     storage = minidb.Storage()
-    conn = minidb.Connection(storage, impl)
+    bare = mode == 'bare'
+    if bare:
+        # a jar without an object cache (minidb.BareJar): persistent then
+        # ghostifies along another path (slots are not released for it)
+        mode = 'between'
+        conn = minidb.BareJar(impl)
+        rec.ev(impl + ':bare-jar-history')
+    else:
+        conn = minidb.Connection(storage, impl)
     c = hist.make_container(fam, kind, impl, sizes)
     t = fam.cls(kind, impl)()          # uncached twin, same implementation
     conn.add(c)
@@ -489,7 +556,8 @@ def run_history(fam, kind, impl, mode, rng, rec, h):
     if sizes:
         g.max_leaf = sizes[0]
     log = []
-    desc = dict(family=fam.name, kind=kind, impl=impl, sizes=sizes, mode=mode)
+    desc = dict(family=fam.name, kind=kind, impl=impl, sizes=sizes,
+                mode='bare' if bare else mode)
     n = rng.randint(40, 120)
     inject.reset()
     state = {'ghosted': 0, 'loads0': 0}
@@ -601,6 +669,9 @@ def run_history(fam, kind, impl, mode, rng, rec, h):
         elif r_kind < 0.15:
             op, args = range_call(rng, w, present, g.universe, is_mapping,
                                   is_tree)
+        elif r_kind < 0.21 and mode == 'between':
+            op, args = stepped_call(rng, present, g.universe, is_mapping,
+                                    is_tree)
         elif r_kind < 0.27:
             op, ospec = operand_call(fam, kind, impl, rng, present,
                                      g.universe, g.values)
@@ -609,7 +680,13 @@ def run_history(fam, kind, impl, mode, rng, rec, h):
             op, args = g.next_op(w, present)
         log.append((op, args))
         rec.journal(repr((desc, log[-30:])))
-        if op == 'mutreassign':
+        if op == 'stepped':
+            def pause():
+                if sweep(conn, rng) > 0:
+                    rec.ev(impl + ':sweep-between-iterator-steps')
+            rargs = args[:2] + (pause,) + args[2:]
+            targs = args[:2] + ((lambda: None),) + args[2:]
+        elif op == 'mutreassign':
             box = []
             rargs = (args[0], box, True, conn.commit)
             targs = (args[0], box, False)
@@ -648,7 +725,7 @@ def run_history(fam, kind, impl, mode, rng, rec, h):
         # comparison of user code is needed for the cache to act while an
         # operation is in the middle of its work)
         sweeps0 = conn.incall_sweeps
-        if mode == 'between' and nghost > 0 and not refuse and \
+        if mode == 'between' and not bare and nghost > 0 and not refuse and \
                 rng.random() < 0.4:
             conn.sweep_at_setstate = rng.randint(1, 3)
             conn.sweep_leaves_only = impl == 'py'
